@@ -29,7 +29,7 @@ THRESHOLDS = {"quick": {**{f"c05:{f}:{c}": 30 for f in FORMATS for c in ("memory
                         "c05:collection-empty-member": 10, "c05:no-meta-at-all": 30, "c05:precollected": 30, "c05:with-meta": 100,
                         "c05:len>=100": 8, "c05:one-cell-solution": 30, "c05:two-cell-solution": 30, "c05:meta-keys-compared": 100,
                         "c05:auto-picked-minimal": 20, "c05:auto-picked-full": 20,
-                        "c05:solution>127-cells": 20, "c05:solution>255-cells": 3, "c05:len>127": 8, "c05:total-solution-cells>32767": 8}}
+                        "c05:solution>127-cells": 20, "c05:solution>255-cells": 3, "c05:len>127": 8, "c05:filter-history": 100, "c05:filter-history-repeated-entry": 30, "c05:total-solution-cells>32767": 8}}
 THRESHOLDS["thorough"] = dict(THRESHOLDS["quick"])
 ANCHORS = ["maze_dataset.dataset.maze_dataset:MazeDataset.serialize", "maze_dataset.dataset.maze_dataset:MazeDataset.load",
            "maze_dataset.dataset.maze_dataset:MazeDataset._load_full", "maze_dataset.dataset.maze_dataset:MazeDataset._load_minimal",
@@ -146,12 +146,24 @@ def build_dataset(ctx, rng, j):
                                     seed=int(rng.integers(1 << 30)))
             ds = MazeDataset.generate(cfg)
             tags.append("with-meta")
+            if j % 3 == 1:
+                # a recorded filter history, incl. the same filter with the same arguments twice in a row and A,B,A patterns
+                # (parameters chosen so that every maze is kept)
+                hist = [[("path_length", (1,), {}), ("path_length", (1,), {})],
+                        [("start_end_distance", (), dict(min_distance=0)), ("truncate_count", (n,), {}), ("start_end_distance", (), dict(min_distance=0))],
+                        [("truncate_count", (), dict(max_count=n + 5)), ("truncate_count", (), dict(max_count=n + 5)), ("path_length", (), dict(min_length=0))],
+                        [("path_length", (1,), {})]][(j // 3) % 4]
+                for fname, fa, fk in hist:
+                    ds = getattr(ds.filter_by, fname)(*fa, **fk)
+                tags.append("filter-history")
+                if len(hist) >= 2 and hist[0] == hist[1]:
+                    tags.append("filter-history-repeated-entry")
             if kind == 1:
                 ds = ds.filter_by.collect_generation_meta()
-                tags = ["precollected"]
+                tags = ["precollected"] + [t for t in tags if t.startswith("filter-history")]
             elif kind == 2 and rng.random() < 0.5:
                 ds = ds.filter_by.strip_generation_meta()
-                tags = ["no-meta-at-all"]
+                tags = ["no-meta-at-all"] + [t for t in tags if t.startswith("filter-history")]
         else:
             # harness-built mazes: ragged solutions incl. one-cell, two-cell and maximal paths, no generation metadata
             mazes = []
